@@ -172,7 +172,7 @@ pub fn build<'m, M: Monitor>(property: &'static str, monitor: &'m M, defs: Vec<W
             }
             a = global_alphabet(a);
             (
-                WorldSys { property, name: d.name.to_string(), cfg, seed: d.seed, alphabet: a.0, obedient: d.obedient, monitor },
+                WorldSys { property, name: d.name.to_string(), cfg, seed: d.seed, alphabet: a.0, obedient: d.obedient, monitor, macros: vec![] },
                 d.depth,
             )
         })
